@@ -105,7 +105,12 @@ def gen_function(rng, name="f_target", kind=None, style=None, doc_mode=None, ord
     has_ret_doc = doc_mode != "none" and rng.random() < 0.5
     ret_expr = rng.choice([None, "zq_result", "(alpha_zq, 2)", "5", "0", "False", "''", "0.0", "None", "", "-1", "'text'"]) if with_body or rng.random() < 0.4 else None
     summary = "Compute the zqsum thing for {}".format(name)
-    doc = None if (doc_mode == "none" and rng.random() < 0.5) else render_docstring(style, summary, docd, has_ret_doc, ret_ann)
+    # the prose of the return entry may itself announce a fallback value (which is NOT what the body returns)
+    ret_doc = "the zq_return value"
+    ret_doc_states_default = has_ret_doc and ret_ann in (None, "int") and rng.random() < 0.4
+    if ret_doc_states_default:
+        ret_doc += rng.choice([", defaults to 17", ". Default value is 19", ". Defaults to 23"])
+    doc = None if (doc_mode == "none" and rng.random() < 0.5) else render_docstring(style, summary, docd, has_ret_doc, ret_ann, ret_doc)
     # signature
     first = [] if kind == "static" else [kind]
     pos_src = [_sig(p) for p in params if p["kind"] == "pos"]
@@ -127,7 +132,8 @@ def gen_function(rng, name="f_target", kind=None, style=None, doc_mode=None, ord
         lines.append("    pass")
     return FuncSpec(src="\n".join(lines) + "\n", params=params, kind=kind, style=style, doc_mode=doc_mode, order=order,
                     name=name, has_doc=doc is not None, ret_ann=ret_ann, ret_expr=ret_expr, body=body,
-                    documented_order=[p["name"] for p in docd], has_ret_doc=has_ret_doc)
+                    documented_order=[p["name"] for p in docd], has_ret_doc=has_ret_doc,
+                    ret_doc_states_default=ret_doc_states_default and doc is not None)
 
 
 def _mk_param(rng, name, kind, has_def):
@@ -148,7 +154,7 @@ def _sig(p):
     return s
 
 
-def render_docstring(style, summary, docd, has_ret_doc, ret_typ):
+def render_docstring(style, summary, docd, has_ret_doc, ret_typ, ret_doc="the zq_return value"):
     """User-style docstring text following the layout of the repository's own mocks."""
     if style == "rest":
         out = ["", summary, ""]
@@ -158,7 +164,7 @@ def render_docstring(style, summary, docd, has_ret_doc, ret_typ):
                 out.append(":type {}: ```{}```".format(p["name"], p["doc_typ"]))
             out.append("")
         if has_ret_doc:
-            out.append(":returns: the zq_return value")
+            out.append(":returns: " + ret_doc)
             if ret_typ:
                 out.append(":rtype: ```{}```".format(ret_typ))
         return "\n".join(out) + "\n"
@@ -170,7 +176,7 @@ def render_docstring(style, summary, docd, has_ret_doc, ret_typ):
                 out.append("  {} ({}): {}".format(p["name"], p["doc_typ"], p["doc"]))
             out.append("")
         if has_ret_doc and ret_typ:
-            out += ["Returns:", "  {}:".format(ret_typ), "   the zq_return value"]
+            out += ["Returns:", "  {}:".format(ret_typ), "   " + ret_doc]
         return "\n".join(out) + "\n"
     out = ["", summary, ""]
     if docd:
@@ -180,7 +186,7 @@ def render_docstring(style, summary, docd, has_ret_doc, ret_typ):
             out.append("    " + p["doc"])
         out.append("")
     if has_ret_doc and ret_typ:
-        out += ["Returns", "-------", ret_typ, "    the zq_return value", ""]
+        out += ["Returns", "-------", ret_typ, "    " + ret_doc, ""]
     return "\n".join(out) + "\n"
 
 
@@ -269,8 +275,14 @@ def _fn_src(rng, name, first=None, indent=0, arg_pool=None, marker=None):
     pad = "    " * indent
     mk = marker or "zq_body_{}".format(rng.randint(1000, 9999))
     lines = [pad + "def {}({}):".format(name, ", ".join(parts)),
-             pad + "    {} = {}".format(mk, rng.randint(0, 99)),
-             pad + "    return {}".format(mk)]
+             pad + "    {} = {}".format(mk, rng.randint(0, 99))]
+    if rng.random() < 0.35:
+        # local variables named like parameters (of this or of a same-named function elsewhere): never addressable
+        for local in rng.sample(pool, rng.randint(1, 2)):
+            lines.append(pad + ("    {}: int = {}" if rng.random() < 0.6 else "    {} = {}").format(local, rng.randint(100, 999)))
+    if rng.random() < 0.2:
+        lines.append(pad + "    zq_label = {!r}".format(rng.choice(pool)))
+    lines.append(pad + "    return {}".format(mk))
     return lines, args, [k.split("=")[0] for k in kwonly]
 
 
